@@ -536,3 +536,117 @@ pub fn translate_macro_fn(tr: &mut Tr, sig: &syn::Signature, block: &syn::Block)
     };
     Ok((text, fsig))
 }
+
+/// The declarative list macros of the façade crates (`langids!`, `langid_slice!`, `locales!`):
+///
+/// ```text
+/// macro_rules! NAME {
+///     ( $($x:expr),* )  => { vec![$( $crate::ELEM!($x), )*] };      // or  &[ .. ]
+///     ( $($x:expr,)* )  => { $crate::NAME![$($x),*] };
+/// }
+/// ```
+/// Exactly this shape is read (`macro_rules`' own semantics is the contract: an invocation without / with a trailing comma
+/// matches the first / the second arm, `$( .. )*` repeats its body once per element in order, the second arm re-invokes the
+/// macro without the trailing comma): the list of literals is mapped through the proc macro `ELEM` — which must itself be a
+/// translated target — one invocation per element; `UL.Macros.list` (`Model/Macros.lean`) is how the outcomes of the elements
+/// combine (the list compiles iff every element does).  Any other arm, matcher, transcriber or attribute is refused.
+pub fn translate_list_macro(tr: &mut Tr) -> R<(String, FnSig)> {
+    let t = tr.target;
+    let f = tr.reg.file(t.file)?;
+    let mut hits = Vec::new();
+    for it in &f.items {
+        if let syn::Item::Macro(m) = it {
+            if m.mac.path.is_ident("macro_rules") && m.ident.as_ref().map(|i| i == t.func).unwrap_or(false) {
+                hits.push(m);
+            }
+        }
+    }
+    let m = match hits.as_slice() {
+        [m] => *m,
+        [] => return Err(format!("macro `{}` not found in {}", t.func, t.file)),
+        _ => return Err(format!("macro `{}` is defined more than once (cfg variants?)", t.func)),
+    };
+    for a in &m.attrs {
+        let s = norm_tokens(a).replace(' ', "");
+        let ok = a.path().is_ident("doc")
+            || s == "#[macro_export]"
+            || s == "#[cfg(feature=\"unic-langid-macros\")]"
+            || s == "#[cfg(feature=\"unic-locale-macros\")]";
+        if !ok {
+            return Err(format!("attribute `{}` on `macro_rules! {}`", norm_tokens(a), t.func));
+        }
+    }
+    // arms: ( matcher ) => { transcriber } ;
+    let toks: Vec<TokenTree> = m.mac.tokens.clone().into_iter().collect();
+    let mut arms: Vec<(String, String)> = Vec::new();
+    let mut i = 0;
+    while i < toks.len() {
+        let (mg, tg) = match (toks.get(i), toks.get(i + 1), toks.get(i + 2), toks.get(i + 3)) {
+            (Some(TokenTree::Group(mg)), Some(TokenTree::Punct(e)), Some(TokenTree::Punct(g)), Some(TokenTree::Group(tg)))
+                if e.as_char() == '=' && g.as_char() == '>' =>
+            {
+                (mg, tg)
+            }
+            _ => return Err(format!("`macro_rules! {}`: an arm that is not `( .. ) => {{ .. }}`", t.func)),
+        };
+        arms.push((mg.stream().to_string().replace(' ', "").replace('\n', ""), tg.stream().to_string().replace(' ', "").replace('\n', "")));
+        i += 4;
+        if let Some(TokenTree::Punct(p)) = toks.get(i) {
+            if p.as_char() == ';' {
+                i += 1;
+            }
+        }
+    }
+    if arms.len() != 2 {
+        return Err(format!("`macro_rules! {}` has {} arms, the modelled shape has 2", t.func, arms.len()));
+    }
+    // the element macro is named by the model type
+    let (elem, elem_lean, ety) = match t.model_type.rsplit('→').next().map(|s| s.trim()) {
+        Some("MacroOut (List LangId)") => ("langid", "Macros.langid", "LangId"),
+        Some("MacroOut (List Locale)") => ("locale", "Macros.locale", "Locale"),
+        _ => return Err("configuration: the model type of a list macro must end in `MacroOut (List ..)`".into()),
+    };
+    let var = {
+        // `$($x:expr),*`
+        let m0 = &arms[0].0;
+        match m0.strip_prefix("$($").and_then(|r| r.strip_suffix(":expr),*")) {
+            Some(v) if !v.is_empty() && v.chars().all(|c| c.is_ascii_alphanumeric() || c == '_') => v.to_string(),
+            _ => return Err(format!("first arm matches `{}` (modelled: `$($x:expr),*`)", m0)),
+        }
+    };
+    let body_vec = format!("vec![$($crate::{}!(${}),)*]", elem, var);
+    let body_slice = format!("&[$($crate::{}!(${}),)*]", elem, var);
+    if arms[0].1 != body_vec && arms[0].1 != body_slice {
+        return Err(format!("first arm expands to `{}` (modelled: `{}` or `{}`)", arms[0].1, body_vec, body_slice));
+    }
+    let m1 = format!("$(${}:expr,)*", var);
+    let t1 = format!("$crate::{}![$(${}),*]", t.func, var);
+    if arms[1].0 != m1 || arms[1].1 != t1 {
+        return Err(format!("second arm is `{}` => `{}` (modelled: `{}` => `{}`)", arms[1].0, arms[1].1, m1, t1));
+    }
+    if let Some(why) = tr.failed.get(elem_lean) {
+        return Err(format!("invokes {} which is untranslated ({})", elem_lean, why));
+    }
+    let sig0 = tr.done.get(elem_lean).cloned().ok_or_else(|| format!("invokes {} which is not translated before it", elem_lean))?;
+    for c in &sig0.contracts {
+        tr.contracts.insert(c.clone());
+    }
+    let text = format!(
+        "/-- `macro_rules! {}` in `{}` (to be compared with `{}`): one invocation of `{}!` per element, with or without a trailing comma -/\ndef {} (ls : List Bytes) : MacroOut (List {}) :=\n  UL.Macros.list UL.Src.{} ls\n",
+        t.func, t.file, t.model, elem, t.lean, ety, elem_lean
+    );
+    let fsig = FnSig {
+        lean: t.lean.to_string(),
+        params: vec!["List Bytes".to_string()],
+        ret: Ty::Unit,
+        mode: Mode::Pure,
+        iter_param: None,
+        mut_self: false,
+        ret_unit: false,
+        plain_res: false,
+        uses_t: false,
+        uses_l: false,
+        contracts: tr.contracts.iter().cloned().collect(),
+    };
+    Ok((text, fsig))
+}
